@@ -619,6 +619,14 @@ def quarantineAcceptOps (holder dst : Addr) : List Coins → List (Option Addr) 
     .send { quarantineBypass := true } holder dst cs (rs.headD (some dst)) ::
       quarantineAcceptOps holder dst rest (rs.drop 1)
 
+/-- x/hold/keeper/genesis.go:13 `InitGenesis`: `AddHold(ctx, addr, entry.Amount, "genesis")` for
+every entry of the hold section of a genesis state, in the order of the file (:21-28), each one
+therefore checked against what the earlier entries left spendable; an error panics, so nothing of
+the import stays.  `addr` is the DECODED address of the entry: two entries that spell one account
+differently (bech32 in lower and in upper case) are two holds on the same account. -/
+def initGenesisOps (entries : List (Addr × Coins)) : List Op :=
+  entries.map fun e => .addHold {} e.1 e.2
+
 /-! ### a transaction: the fee-payment route
 
 `internal/antewrapper/provenance_fee.go` `checkDeductBaseFee` :76 deducts the base fee (floor gas
